@@ -114,15 +114,33 @@ def gapWitness : Properties := { attributes := { title := some (0x78 :: List.rep
 set_option maxRecDepth 20000 in
 theorem c28_compressed_roundtrip_fails :
     wfProps gapWitness = true ∧ gapWitness ≠ {} ∧
-    ∃ cbor, toInline gapWitness = some cbor ∧ cbor.length = 606 ∧ encoderAccepts 606 20 = true ∧
+    ∃ cbor, toInline gapWitness = some cbor ∧ cbor.length = 606 ∧
+      (Generated.ratioGuardFixed = false → encoderAccepts 606 20 = true) ∧
       ∀ (compressed : Bytes) (chunks : List Bytes), compressed.length = 20 →
         (∀ c ∈ chunks, c ≠ []) → chunks.flatten = cbor →
         inscriptionProperties (some compressed) (some BROTLI) (chunks.map .data ++ [.data []]) = .ok {} := by
-  refine ⟨by decide, by decide, _, rfl, by decide, by decide, ?_⟩
+  refine ⟨by decide, by decide, _, rfl, by decide, ?_, ?_⟩
+  · intro hflag
+    unfold encoderAccepts
+    rw [hflag]; decide
   intro compressed chunks hlen hne hfl
   refine c28_compressed_rejected _ compressed chunks hne hfl ?_
   have : (encProperties gapWitness).length = 606 := by decide
   rw [hlen, this]; decide
+
+/-- With the repaired guard (`notes/fix-C28-ratio-gap.diff`; the flag is re-extracted from the
+source on every run) everything the encoder accepts is inside the decoder's guard, so
+`c28_compressed_roundtrip` applies to every compressed inscription ord builds. -/
+theorem c28_encoder_guard_fixed (hflag : Generated.ratioGuardFixed = true) (len clen : Nat)
+    (h : encoderAccepts len clen = true) : len ≤ min (30 * clen) 4000000 := by
+  unfold encoderAccepts at h
+  rw [hflag] at h
+  have h' := Bool.and_eq_true_iff.1 h
+  have h1 : len ≤ MAX_COMPRESSED_PROPERTIES_SIZE := of_decide_eq_true h'.1
+  have h2 : len ≤ sat64 (clen * MAX_PROPERTIES_COMPRESSION_RATIO) := by simpa using h'.2
+  unfold MAX_COMPRESSED_PROPERTIES_SIZE at h1
+  unfold sat64 MAX_PROPERTIES_COMPRESSION_RATIO at h2
+  split at h2 <;> omega
 
 /-- `_partial`: with the encoder's own guard instead of the decoder's the compressed round trip
 holds only under the extra hypothesis `len ≤ 30·clen` (which `len / clen ≤ 30` does not give). -/
